@@ -7,6 +7,7 @@
 import os
 import sys
 import json
+import time
 import random
 import shutil
 import tempfile
@@ -219,7 +220,7 @@ def run_step(step, path, device_pin, devstate_path=None):
                     s.initialize()
                     obs["outcome"] = "served"
                     if step.get("running"):
-                        obs["outcome"] = running_phase(s, dev, step, platform)
+                        obs["outcome"] = running_phase(s, dev, step, platform, path)
                 except HSM2ProtocolInterrupt:
                     obs["outcome"] = "interrupt"
                 except HSM2ProtocolError as e:
@@ -238,6 +239,10 @@ def run_step(step, path, device_pin, devstate_path=None):
                           e.get("sw"), e.get("fault")) for e in evs]
         obs["dev_log"] = list(dev.log)
         obs["device_pin"] = dev.pin
+        if getattr(s, "outside_file", None):
+            # (what the file held after somebody else handled it, before the change)
+            file_before = s.outside_file[1]
+            obs["outside"] = step.get("outside")
         obs["file_before"] = file_before
         obs["file_after"] = read_file(path)
         obs["apdus"] = len(s.bus.apdus())
@@ -251,7 +256,7 @@ def run_step(step, path, device_pin, devstate_path=None):
     return obs
 
 
-def running_phase(s, dev, step, platform):
+def running_phase(s, dev, step, platform, path=None):
     """requests against the started manager: one hit by a link fault, then (device back
     in the bootloader, locked) two more.  -> 'served' if the manager is still answering
     requests at the end, 'interrupt' if it shut down"""
@@ -274,6 +279,25 @@ def running_phase(s, dev, step, platform):
     dev.mode = MODE_BOOTLOADER
     dev.unlocked = False
     dev.pending_link = None
+    if step.get("outside") and path is not None:
+        how = step["outside"]
+        cur = read_file(path)
+        if how == "touch" and cur is not None:
+            os.utime(path, ns=(time.time_ns() + 10**9, time.time_ns() + 10**9))
+        elif how == "rewrite-same" and cur is not None:
+            with open(path, "wb") as f:
+                f.write(cur)
+            os.utime(path, ns=(time.time_ns() + 2 * 10**9, time.time_ns() + 2 * 10**9))
+        elif how == "replace-same" and cur is not None:
+            with open(path + ".new", "wb") as f:
+                f.write(cur)
+            os.replace(path + ".new", path)
+        elif how == "create" and cur is None:
+            with open(path, "wb") as f:
+                f.write(dev.pin)
+        elif how == "remove" and cur is not None and not os.path.islink(path):
+            os.unlink(path)
+        s.outside_file = ("set", read_file(path))
     last = None
     for _ in range(2):
         # (client_gone: the client of these requests has hung up by the time the manager
@@ -532,6 +556,16 @@ def gen_histories(spec, tmpdir):
                         {"platform": platform, "force": force, "running": lk,
                          "request_kind": rk},
                         {"platform": platform}]})
+                # the same, and somebody handles the PIN file while the manager is running
+                # with the change pending (touches it, rewrites it with what it holds,
+                # replaces it by a copy; writes the device's current PIN into a missing one;
+                # removes it): the change that follows ends with the new PIN on disk
+                for outside in (("touch", "rewrite-same", "replace-same", "remove")
+                                if start != "absent" else ("create",)):
+                    cases.append({"platform": platform, "start": start, "steps": [
+                        {"platform": platform, "force": force, "running": lk,
+                         "outside": outside},
+                        {"platform": platform}]})
                 # the same, and the client whose request triggers the repair has hung up
                 # by the time the reply is written
                 cases.append({"platform": platform, "start": start, "steps": [
@@ -618,6 +652,8 @@ def run_history(acc, case, tmpdir):
         # by root): the file can be rewritten, nothing can be created or removed beside it
         path = os.path.join(case["_rodir"], "pin.txt")
         acc.count("histories_with_a_pin_file_in_a_directory_that_is_not_writable")
+    if any(st_.get("outside") for st_ in case["steps"]):
+        acc.count("histories_with_the_pin_file_handled_by_somebody_else_while_running")
     if spelled:
         acc.count("histories_with_a_pin_path_spelled_" + spelled.replace("-", "_"))
     for p in (path, devstate, real):
